@@ -13,6 +13,7 @@ def reset():
     _state['violations'] = []
     _state['events'] = []
     _state['src'] = []
+    _state['vec_alloc'] = {}
 
 
 def collect():
@@ -187,6 +188,47 @@ def install():
         return r
 
     CG.to_func = to_func
+
+
+def install_vec():
+    """M-vec: every frontend node receives exactly one slot range per variable in exactly one IR node; the ranges of
+    the nodes merged into one IR node are pairwise disjoint and contiguous from 0."""
+    if _state.get('vec_installed'):
+        return
+    _state['vec_installed'] = True
+    import pyrates.ir.node as irn
+    import pyrates.frontend.template.node as ftn
+    import pyrates.frontend.template.edge as fte
+    orig = irn.cache_func
+    _state['vec_alloc'] = {}
+
+    @functools.wraps(orig)
+    def cache_func(label, operators, values=None, template=None, ir_class=None, **kw):
+        node, changed, var_ranges = orig(label, operators, values, template, ir_class, **kw)
+        _cnt('mvec_nodes')
+        alloc = _state['vec_alloc'].setdefault(id(node), {'label': getattr(node, 'label', None), 'vars': {}})
+        for (op, var), (lo, hi) in var_ranges.items():
+            slots = alloc['vars'].setdefault((op, var), [])
+            for (l2, h2, lab2) in slots:
+                if lo < h2 and l2 < hi:
+                    _viol(f"M-vec: nodes {lab2} and {label} overlap in the vectorized variable {op}/{var}: "
+                          f"[{l2},{h2}) and [{lo},{hi})")
+            expected_lo = max([h for _, h, _ in slots], default=0)
+            if lo != expected_lo:
+                _viol(f"M-vec: node {label} got slots [{lo},{hi}) of {op}/{var}, expected to start at {expected_lo}")
+            slots.append((lo, hi, label))
+            _cnt('mvec_ranges')
+        if len(alloc['vars']) and any(len(v) > 1 for v in alloc['vars'].values()):
+            _cnt('mvec_merges')
+        return node, changed, var_ranges
+
+    irn.cache_func = cache_func
+    ftn.cache_func = cache_func
+    fte.cache_func = cache_func
+
+
+def reset_vec():
+    _state['vec_alloc'] = {}
 
 
 # ---------------------------------------------------------------------------------------------------------------------
